@@ -360,8 +360,29 @@ func (j *cohortJudge) judgeCanonical(x ref.Bits, alt ref.Bits, other ref.Bits) {
 	}
 }
 
+// distinguishedValue returns one of the values operations treat specially
+// (shortcut operands: one, powers of ten, two, one half, small integers); the
+// caller re-encodes it as an arbitrary cohort member.
+func distinguishedValue(r *gen.RNG) ref.Bits {
+	neg := r.Chance(1, 3)
+	switch r.Intn(6) {
+	case 0, 1:
+		return ref.Encode(neg, big.NewInt(1), 0)
+	case 2:
+		return ref.Encode(neg, big.NewInt(1), r.Pick(1, -1, 2, -2, 3, -7, 19, 20, 33, -33, 34, 100, -100))
+	case 3:
+		return ref.Encode(neg, big.NewInt(int64(r.Pick(2, 3, 4, 5, 8, 9, 16, 25, 27, 64, 100))), 0)
+	case 4:
+		return ref.Encode(neg, big.NewInt(int64(r.Pick(5, 25, 125, 2, 15, 75))), r.Pick(-1, -2, -3))
+	}
+	return ref.Encode(neg, big.NewInt(int64(r.Range(1, 40))), 0)
+}
+
 func genCohortValue(r *gen.RNG) ref.Bits {
 	neg := r.Bool()
+	if r.Chance(1, 8) {
+		return altEncoding(r, distinguishedValue(r))
+	}
 	switch r.Intn(8) {
 	case 0:
 		return ref.Encode(neg, new(big.Int), r.Exp())
@@ -432,6 +453,25 @@ func runC19(c *Ctx) {
 						y = ref.Encode(xn.Neg, cy, xn.Exp-g)
 					}
 				}
+			}
+			if i%16 == 7 {
+				// a special second (or first) operand: the finite operand's encoding must still not matter
+				sp := r.Pick(0, 1, 2)
+				var sb ref.Bits
+				switch sp {
+				case 0:
+					sb = ref.EncodeInf(false)
+				case 1:
+					sb = ref.EncodeInf(true)
+				default:
+					sb = ref.Bits{Hi: 0x7c00_0000_0000_0000}
+				}
+				if r.Bool() {
+					y = sb
+				} else {
+					x, y = sb, x
+				}
+				j.sh.Cell("gen/special-operand")
 			}
 			a := [2]ref.Bits{x, y}
 			b := [2]ref.Bits{altEncoding(r, x), altEncoding(r, y)}
